@@ -218,6 +218,10 @@ impl Kind for KBdd {
     fn reorder(mref: &<Self::F as Function>::ManagerRef, order: &[u32], seq: bool) {
         mref.with_manager_exclusive(|m| if seq { oxidd_reorder::set_var_order_seq(m, order) } else { oxidd_reorder::set_var_order(m, order) })
     }
+    fn set_split_depth(mref: &<Self::F as Function>::ManagerRef, depth: Option<u32>) {
+        use oxidd::{HasWorkers, WorkerPool};
+        mref.with_manager_shared(|m| m.workers().set_split_depth(depth));
+    }
     fn extend_tt(t: &TT, n2: u32) -> TT {
         t.extend(n2)
     }
@@ -279,6 +283,10 @@ impl Kind for KBcdd {
     }
     fn reorder(mref: &<Self::F as Function>::ManagerRef, order: &[u32], seq: bool) {
         mref.with_manager_exclusive(|m| if seq { oxidd_reorder::set_var_order_seq(m, order) } else { oxidd_reorder::set_var_order(m, order) })
+    }
+    fn set_split_depth(mref: &<Self::F as Function>::ManagerRef, depth: Option<u32>) {
+        use oxidd::{HasWorkers, WorkerPool};
+        mref.with_manager_shared(|m| m.workers().set_split_depth(depth));
     }
     fn extend_tt(t: &TT, n2: u32) -> TT {
         t.extend(n2)
@@ -509,6 +517,10 @@ impl Kind for KZbdd {
     }
     fn reorder(mref: &<Self::F as Function>::ManagerRef, order: &[u32], seq: bool) {
         mref.with_manager_exclusive(|m| if seq { oxidd_reorder::set_var_order_seq(m, order) } else { oxidd_reorder::set_var_order(m, order) })
+    }
+    fn set_split_depth(mref: &<Self::F as Function>::ManagerRef, depth: Option<u32>) {
+        use oxidd::{HasWorkers, WorkerPool};
+        mref.with_manager_shared(|m| m.workers().set_split_depth(depth));
     }
     fn extend_tt(t: &TT, n2: u32) -> TT {
         t.extend_zero(n2)
